@@ -456,16 +456,18 @@ def mfm_decoder_jobs(Job, cfg=CFG_NDEBUG, tier="quick"):
 
 def dump_jobs(Job, cfg=CFG_NDEBUG, tier="quick"):
     g = ["dump_get_arg", "dump_sector_addr"]
+    import native_replay
     return [Job("D_dump_get_arg_%s" % cfg[0], "harness/dfs_dump.c", "h_get_arg", enforce=["dump_get_arg"],
-                defines=list(cfg[1]), extract=ext(g), tier=tier, cover=True),
+                defines=list(cfg[1]), extract=ext(g), tier=tier, cover=True, replay=native_replay.replay_dump_get_arg),
             Job("D_dump_sector_addr_%s" % cfg[0], "harness/dfs_dump.c", "h_sector_addr", enforce=["dump_sector_addr"],
                 defines=list(cfg[1]), extract=ext(g), tier=tier, solver="portfolio")]
 
 
 def selector_jobs(Job, cfg=CFG_NDEBUG, tier="quick"):
     g = ["SurfaceSelector_coerce_long", "SurfaceSelector_parse"]
+    import native_replay
     return [Job("D_selector_coerce_%s" % cfg[0], "harness/dfs_selector.c", "h_coerce", enforce=["SurfaceSelector_coerce_long"],
-                defines=list(cfg[1]), extract=ext(g), tier=tier),
+                defines=list(cfg[1]), extract=ext(g), tier=tier, replay=native_replay.replay_selector),
             Job("D_selector_parse_%s" % cfg[0], "harness/dfs_selector.c", "h_parse", enforce=["SurfaceSelector_parse"],
                 replace=["SurfaceSelector_coerce_long"], defines=list(cfg[1]), extract=ext(g), tier=tier, cover=True)]
 
